@@ -139,7 +139,7 @@ def gen_kwargs(rng):
     return dict(
         games=gen.STUD_GAMES if stud else tuple(
             g for g in gen.ALL_GAMES if g not in gen.STUD_GAMES),
-        customs=('stud5',) if stud else ('greek', 'draw5', 'kuhn', 'random'),
+        customs=('stud5', 'openstud') if stud else ('greek', 'draw5', 'kuhn', 'random'),
         p_custom=0.15,
         chip_types=('int', 'int', 'int', 'Fraction', 'float', 'Decimal'),
         max_boards=1, strict_p=0.85,
@@ -152,7 +152,7 @@ def pol_tweak(pol, cfg, rng):
         pol['fork_p'] = 0.03     # continue on a deepcopy mid-hand
     pol['policy'] = rng.choice(['passive', 'passive', 'uniform', 'aggressive',
                                 'allin'])
-    stud = cfg.get('game') in gen.STUD_GAMES or cfg.get('template') == 'stud5'
+    stud = cfg.get('game') in gen.STUD_GAMES or cfg.get('template') in ('stud5', 'openstud')
     pol['deal'] = 'fewranks' if stud and rng.random() < 0.8 else 'default'
 
 
@@ -160,7 +160,7 @@ def cfg_filter(cfg, rng):
     if not cfg['strict'] and cfg['mode'] != 'CASH_GAME':
         cfg['strict'] = True      # lenient = cash game with warned folds
     # dealing must be manual for the rigged up-cards
-    stud = cfg.get('game') in gen.STUD_GAMES or cfg.get('template') == 'stud5'
+    stud = cfg.get('game') in gen.STUD_GAMES or cfg.get('template') in ('stud5', 'openstud')
     if stud and rng.random() < 0.85:
         cfg['autos'] = [a for a in cfg['autos'] if a != 'HOLE_DEALING']
     return cfg
